@@ -33,6 +33,7 @@ import ast
 import importlib
 
 from harness import common
+from translate import astutil
 
 OUT = common.LEAN / "FordModel" / "Generated" / "C02.lean"
 
@@ -76,7 +77,8 @@ def initial_steps():
         raise ValueError("line_to_variables: expected exactly one `if initial:` block without else")
     steps = []
     nbsp = dbl = None
-    for st in blocks[0].body:
+    # a step that was extracted into a small helper function reads as if it were still written in place
+    for st in astutil.inline_helper_calls(blocks[0].body, tree):
         text = ast.unparse(st)
         if isinstance(st, ast.Expr) and isinstance(st.value, ast.Constant):
             continue
